@@ -228,7 +228,8 @@ def gen_xb(r):
         if c < 35: ops.append("c")
         elif c < 80:
             k = r.choice([1, 2, 3, sizes_around(r, max(capn - idx, 1)), sizes_around(r, capn), sizes_around(r, 2 * capn + 1), r.below(3000)])
-            ops.append("n%d" % k); capn = max(capn, 2 * (idx + k)); idx += k
+            k = min(k, 200000)          # sizes follow the doubling capacity: keep the total bounded
+            ops.append("n%d" % k); capn = min(max(capn, 2 * (idx + k)), 400000); idx += k
         elif c < 88: ops.append("s%d" % r.choice([0, 1, sizes_around(r, capn), r.below(5000)]))
         elif c < 94: ops.append("r"); idx = 0
         else: ops.append("g")
@@ -794,12 +795,39 @@ def pick_config(r, need_flags, caf_ok=False, limit=0):
 def case_line(cfg, main, res):
     return cfg + " " + hexs(main) + ("" if not res else " | " + " ".join("%s=%s" % (k, hexs(v)) for k, v in sorted(res.items())))
 
+def witnesses():
+    """corpus/C01/*.json: minimised inputs of past findings and past false alarms, replayed first in every tier"""
+    d = os.path.join(common.VERIF, "corpus", "C01")
+    out = []
+    for f in sorted(os.listdir(d)) if os.path.isdir(d) else []:
+        if f.endswith(".json"):
+            j = json.load(open(os.path.join(d, f)))
+            out.append((j["line"], j.get("family", "witness"), False))
+    return out
+
+# shapes that leave DTDScanner::scanChildren / scanMixed / scanElementDecl / scanAttListDecl / scanEntityDecl early: an exception
+# (end of input, PE reference) or an error return in the middle of a partly built declaration
+DTD_EARLY_EXIT = ["(c%", "(a,b%", "(a|(b%", "((a%", "(a,b)%", "(a ?", "(a,%", "(a,b,(c|d)*,%", "(a|b|", "(a,(b,(c,(d%", "(a)*%", "(a,b)+ %x;", "(#PCDATA|a%",
+                  "(#PCDATA|a|%", "(#PCDATA)*%", "(#PCDATA|a)%", "EMPTY%", "(a,b) >%", "(%", "(a%p;", "(a,%p;b)"]
+def dtd_early_exit_cases(thorough=True):
+    out = []
+    for k, cm in enumerate(DTD_EARLY_EXIT):
+        for pre in ("", '<!ENTITY % p "|z">'):
+            docs = ["<!DOCTYPE a[%s<!ELEMENT a %s" % (pre, cm), "<!DOCTYPE a[%s<!ELEMENT a %s>]><a/>" % (pre, cm)]
+            if thorough:
+                docs.append('<!DOCTYPE a[%s<!ATTLIST a b (x|y%s' % (pre, cm[1:]))
+                docs.append('<!DOCTYPE a[%s<!ATTLIST a b NOTATION (x|y%s' % (pre, cm[1:]))
+            for j, d in enumerate(docs):
+                api, sc = (("ls", "ig"), ("sax2", "dg"), ("dom", "ig"), ("sax", "dg"))[(k + j) % 4]
+                out.append((case_line("%s:%s:always:%x:0" % (api, sc, (k + j) % 2 * 2), d.encode(), {}), "dtd-early-exit", False))
+    return out
+
 def parse_cases(ctx):
     """list of (line, family, caf)"""
     r = ctx.rng
     C = corpus()
     mains = [c[1] for c in C]
-    out = []
+    out = witnesses() + dtd_early_exit_cases(ctx.thorough())
     # every corpus document under every api x scanner x validation (exit-on-first-fatal on) …
     for fam, main, res, fl in C:
         for api in APIS:
@@ -901,6 +929,78 @@ def ddmin_line(line, key, family, caf, budget=30.0):
 def known_open_keys():
     return {f["key"] for f in common.load_findings() if f.get("property") == PID and f.get("status") == "open"}
 
+# ---------------------------------------------------------------------- confirmation of load-sensitive observations
+def confirm_timeouts(ctx, hits, label):
+    """hits: key -> list of (line, ...) tuples (shortest first).  A watchdog expiry is believed only if it happens again
+    in a fresh process that runs alone with three times the budget (the harness additionally scales every budget by a
+    load factor measured against a reference parse).  Returns the set of confirmed keys -> the confirming tuple."""
+    confirmed = {}
+    unconfirmed = 0
+    known = known_open_keys()
+    for key, cands in sorted(hits.items()):
+        if key in known:                 # recorded finding: nothing to decide, spare the CPU
+            confirmed[key] = cands[0]
+            continue
+        for cand in cands[:3]:
+            o, e, _ = run_sharded("hx_parse", [cand[0]], nproc=1, env={"HX_TIME_SCALE": "3"})
+            if "WATCHDOG-TIMEOUT" in e.get(0, "") or "WALL-TIMEOUT" in e.get(0, ""):
+                confirmed[key] = cand
+                break
+            unconfirmed += 1
+    ctx.stats[label + "_watchdog_unconfirmed"] = unconfirmed
+    if unconfirmed:
+        ctx.notes.append("%s: %d watchdog expiries were not reproduced alone with 3x budget (machine load) and are not reported" % (label, unconfirmed))
+    return confirmed
+
+LSAN_ENV = {"ASAN_OPTIONS": "detect_leaks=1:fast_unwind_on_malloc=0:malloc_context_size=20:symbolize=1:allocator_may_return_null=1"}
+LEAK_SKIP = re.compile(r"^(operator new|malloc|CountingMM::|MemoryManager|MemoryManagerImpl::|XMemory::operator new)")
+def leak_site(line):
+    """name the leak by where it was allocated: first xerces function (not an allocator wrapper or a constructor) of the first
+    'Direct leak' record LeakSanitizer prints for the case run alone; None if LeakSanitizer reports nothing"""
+    exe = common.build_harness("hx_parse")
+    e = dict(os.environ); e.update(ENV); e.update(LSAN_ENV)
+    try:
+        p = subprocess.run([exe], input=(line + "\n").encode(), env=e, stdout=subprocess.PIPE, stderr=subprocess.PIPE, timeout=300)
+    except subprocess.TimeoutExpired:
+        return None
+    err = p.stderr.decode(errors="replace")
+    if "XIncludeUtils::" in err and "LeakSanitizer" in err:
+        return "xinclude"
+    m = re.search(r"Direct leak of .*?\n((?:\s+#\d+ .*\n)+)", err)
+    if not m:
+        return None
+    for f in re.finditer(r"#\d+ 0x[0-9a-f]+ in (.+?) (/\S+?):\d+", m.group(1)):
+        name, path = f.group(1), f.group(2)
+        if "/src/xercesc/" not in path:
+            continue
+        name = re.sub(r"\(.*$", "", re.sub(r"^xercesc_\d+_\d+::", "", name)); name = re.sub(r"<.*?>", "", name)
+        if LEAK_SKIP.match(name):
+            continue
+        parts = name.split("::")
+        if len(parts) >= 2 and parts[-1] == parts[-2]:      # a constructor: the interesting frame is its caller
+            continue
+        return name
+    return None
+
+PROVISIONAL = {}      # refined leak key -> the class key classify() gives (used to recognise the finding while minimising)
+def refine_leak_keys(per_key):
+    """leak:<config class> -> leak:<allocation site>; an entry whose site cannot be determined keeps its class key"""
+    out = {}
+    nsites = 0
+    for key, val in sorted(per_key.items(), key=lambda kv: len(kv[1][0])):
+        nk = key
+        if key.startswith("leak:") or key.startswith("caf:leak:"):
+            key = nk = key.split("#")[0]
+            site = None
+            if key not in known_open_keys() and nsites < 24:      # a recorded leak class needs no second look
+                site = leak_site(val[0]); nsites += 1
+            if site:
+                nk = key[:key.index("leak:")] + "leak:" + site
+        if nk not in out or len(val[0]) < len(out[nk][0]):
+            out[nk] = val
+            PROVISIONAL[nk] = key
+    return out
+
 def run_parse(ctx, found, cases=None, label="parse"):
     cases = cases if cases is not None else parse_cases(ctx)
     lines = [c[0] for c in cases]
@@ -908,7 +1008,7 @@ def run_parse(ctx, found, cases=None, label="parse"):
     outs, errs, crashes = run_sharded("hx_parse", lines, wall_per_case=8.0)
     ctx.stats[label + "_wall_s"] = round(time.time() - t0, 1)
     hist = {}; fams = {}; caf_findings = {}
-    per_key = {}
+    per_key = {}; thits = {}
     for k, (line, fam, caf) in enumerate(cases):
         o = outs[k]
         tag = o.split()[0] if o else "?"
@@ -916,9 +1016,17 @@ def run_parse(ctx, found, cases=None, label="parse"):
         hist[tag] = hist.get(tag, 0) + 1
         fams[fam.split("/")[0]] = fams.get(fam.split("/")[0], 0) + 1
         for key, what in classify(o, errs.get(k, ""), fam.split("/")[0], caf, line.split(" ", 1)[0]):
+            if (key[4:] if key.startswith("caf:") else key).startswith(("timeout:", "resource:")):
+                thits.setdefault(key, []).append((line, fam, caf, o, what))
+                continue
+            if "leak:" in key and " LEAK " in o:      # one representative per leak size: different sizes, different sites
+                key = key + "#" + o.rsplit(" LEAK ", 1)[1].split()[0]
             cur = per_key.get(key)
             if cur is None or len(line) < len(cur[0]):
                 per_key[key] = (line, fam, caf, o, what)
+    for key in thits: thits[key].sort(key=lambda t: len(t[0]))
+    per_key.update(confirm_timeouts(ctx, thits, label))
+    per_key = refine_leak_keys(per_key)
     nmin = 0
     for key, (line, fam, caf, o, what) in sorted(per_key.items()):
         if key.startswith("caf:"):
@@ -927,7 +1035,7 @@ def run_parse(ctx, found, cases=None, label="parse"):
         small = line
         if nmin < (12 if ctx.thorough() else 5) and not key.startswith(("resource:", "timeout:")) and len(line) < 900000 and key not in known_open_keys():
             try:
-                small = ddmin_line(line, key, fam.split("/")[0], caf, budget=(40.0 if ctx.thorough() else 15.0))
+                small = ddmin_line(line, PROVISIONAL.get(key, key), fam.split("/")[0], caf, budget=(40.0 if ctx.thorough() else 15.0))
                 nmin += 1
             except Exception as e:      # minimisation trouble never hides the finding
                 ctx.notes.append("ddmin failed for %s: %r" % (key, e))
@@ -1080,22 +1188,30 @@ def run_seq(ctx, found, cases=None, label="seq"):
     t0 = time.time()
     outs, errs, crashes = run_sharded("hx_parse", lines, wall_per_case=10.0)
     ctx.stats[label + "_wall_s"] = round(time.time() - t0, 1)
-    hist = {}; per_key = {}
+    hist = {}; per_key = {}; thits = {}
     for k, (line, fam, caf) in enumerate(cases):
         o = outs[k]
         for ob in (o.split("; ") if not o.startswith(("CRASH", "NO-OUTPUT")) else [o.split()[0]]):
             t = ob.split()[0] if ob else "?"
             hist[t] = hist.get(t, 0) + 1
         for key, what in classify(o, errs.get(k, ""), "reused-parser", caf, line):
+            if key.startswith(("timeout:", "resource:")):
+                thits.setdefault(key, []).append((line, fam, o, what))
+                continue
+            if "leak:" in key and " LEAK " in o:
+                key = key + "#" + o.rsplit(" LEAK ", 1)[1].split()[0]
             cur = per_key.get(key)
             if cur is None or len(line) < len(cur[0]):
                 per_key[key] = (line, fam, o, what)
+    for key in thits: thits[key].sort(key=lambda t: len(t[0]))
+    per_key.update(confirm_timeouts(ctx, thits, label))
+    per_key = refine_leak_keys(per_key)
     nmin = 0
     for key, (line, fam, o, what) in sorted(per_key.items()):
         small = line
         if nmin < 6 and not key.startswith(("resource:", "timeout:")) and key not in known_open_keys():
             try:
-                small = ddmin_seq(line, key, "reused-parser", budget=(60.0 if ctx.thorough() else 25.0)); nmin += 1
+                small = ddmin_seq(line, PROVISIONAL.get(key, key), "reused-parser", budget=(60.0 if ctx.thorough() else 25.0)); nmin += 1
             except Exception as e:
                 ctx.notes.append("sequence minimisation failed for %s: %r" % (key, e))
         found.setdefault(key, {"key": key, "concrete": True,
